@@ -4,7 +4,7 @@ from __future__ import annotations
 import ast
 
 from ..cfg import CFG
-from ..engine import AnalysisError, PropertySpec, norm
+from ..engine import AnalysisError, MechanismMissing, PropertySpec, norm
 from ..pyutil import call_name, calls, const_str, is_name, literal, subscript_key, walk_local
 from ._api import API, db_accesses
 
@@ -55,7 +55,7 @@ def r20_1(ctx, rep):
                 if cn.ast is not None and any(x is n for x in ast.walk(cn.ast)) and cn.kind in ("stmt", "test", "iter"):
                     payload_nodes.add(cn.id)
     if len(payload_nodes) < 5:
-        raise AnalysisError(R, "fewer than 5 payload reads found in load_model")
+        raise MechanismMissing(R, "fewer than 5 payload reads found in load_model")
 
     def guard_tests(pred):
         out = set()
@@ -146,7 +146,7 @@ def r20_2(ctx, rep):
     a = scan(ctx.func(API, "load_model", R))
     b = scan(ctx.func(API, "_compile_model", R))
     if None in a or None in b:
-        raise AnalysisError(R, "file scans not found (load_model %s, _compile_model %s)" % (a, b))
+        raise MechanismMissing(R, "file scans not found (load_model %s, _compile_model %s)" % (a, b))
     for i, what in enumerate(("folder list", "os.walk arguments", "file pattern")):
         rep.ob(R, API + ":load_model/_compile_model", what, a[i] == b[i],
                "the staleness check looks at `%s` but the compiler reads `%s`: a file the compiler uses can change without invalidating the cache" % (a[i], b[i]))
@@ -183,7 +183,7 @@ def r20_3(ctx, rep):
             rep.ob(R, site, "recompile and save with the same options", ok,
                    "the handler must call _compile_model and save_model with the folder, name and options object used for load_model")
     if not found:
-        raise AnalysisError(R, "try around load_model not found in transfer_model")
+        raise MechanismMissing(R, "try around load_model not found in transfer_model")
 
 
 @SPEC.rule("R20.4", "option normalisation (forcing expand_mx for the pickle cache, disabling cache under codegen) dominates the load attempt; save_model stores the current version and the merged options")
